@@ -1,3 +1,4 @@
+import BalmProofs.SymHyp
 import BalmProofs.CandSpec
 import BalmProofs.JudgeSpec
 import Balm
